@@ -86,3 +86,16 @@ prop(
     design_ref="§8 C10",
     assumptions=["the clock is the whole-second u32 `SecondsSinceServerStart`"],
 )
+
+prop(
+    "C13",
+    module="Aquatic.Props.C13",
+    technique="Lean 4 proof of conformance (generated layouts = BEP 15 tables, decide) and round-trip/rejection theorems + differential check of the real writers/parsers against an independent BEP 15 encoder/decoder",
+    runs=[dict(harness="udpcodec", driver="codec13", quick=dict(cases=400), thorough=dict(cases=40000))],
+    nontrivial=["announce+extension", "scrape-cut", "pq-sendable-error", "pq-unsendable-error", "rq-announce", "rq-scrape",
+                "rs-announce4", "rs-announce6", "rs-scrape", "rs-error", "ps-rejected"],
+    level_text="The field order, widths, enum discriminants and action codes are re-extracted from crates/udp_protocol on every run and proved equal to the BEP 15 tables (decide over finite tables); the model writer over those layouts is proved byte-identical to an independently written BEP 15 encoder for every message; the model parser is proved to accept every conforming datagram (announces with arbitrary extension bytes, scrapes cut to max_scrape_torrents) with every field's value and to reject short input, unknown action/event, wrong protocol id, port 0 and bad hash lists; replies of both families round-trip. Tie: real write_bytes/parse_bytes on generated, truncated, extended and bit-flipped datagrams versus model and versus the independent BEP 15 codec.",
+    level_note="Trusted: Lean kernel; tools/extract_layouts.py (regex translator); zerocopy's as_bytes/read_from_prefix/ref_from_bytes contract and String::from_utf8_lossy are modelled, their agreement with the model is sampled by the correspondence run; integers are modelled by their unsigned bit patterns.",
+    design_ref="§8 C13",
+    assumptions=["error-message text is compared only when it is valid UTF-8 (from_utf8_lossy of std is not modelled)"],
+)
